@@ -145,7 +145,40 @@ impl Default for UptimeTracker {
     }
 }
 
+/// Verification hook (H1): process-global override of the millisecond clock read by the
+/// timestamp tracker.  Compiled only with `--cfg huginn_net_verif`.
+#[cfg(huginn_net_verif)]
+pub mod verif_clock {
+    use std::sync::atomic::{AtomicBool, AtomicU64, Ordering};
+
+    static ENABLED: AtomicBool = AtomicBool::new(false);
+    static NOW_MS: AtomicU64 = AtomicU64::new(0);
+
+    /// `Some(ms)` freezes the clock at `ms`; `None` returns to the system clock.
+    pub fn set(ms: Option<u64>) {
+        match ms {
+            Some(v) => {
+                NOW_MS.store(v, Ordering::SeqCst);
+                ENABLED.store(true, Ordering::SeqCst);
+            }
+            None => ENABLED.store(false, Ordering::SeqCst),
+        }
+    }
+
+    pub(super) fn get() -> Option<u64> {
+        if ENABLED.load(Ordering::SeqCst) {
+            Some(NOW_MS.load(Ordering::SeqCst))
+        } else {
+            None
+        }
+    }
+}
+
 fn get_unix_time_ms() -> Option<u64> {
+    #[cfg(huginn_net_verif)]
+    if let Some(ms) = verif_clock::get() {
+        return Some(ms);
+    }
     let now = SystemTime::now();
     now.duration_since(UNIX_EPOCH)
         .ok()
